@@ -354,7 +354,7 @@ def check_seq(prop, tier):
                 raise ToolError("regression witness: the instance with the zero-display spin (D4) must have a non-terminating lasso")
             res.add(states=rl["distinct"], transitions=rl["generated"], liveness_states=rl["distinct"], liveness_witness_D4="lasso found")
         # 3. specification -> implementation: the model's histories replayed in the real code
-        cap = 1500 if tier == "quick" else 60000
+        cap = 2500 if tier == "quick" else 60000
         if len(replays) > cap:
             step = len(replays) // cap + 1
             replays = replays[rng.below(step)::step]
